@@ -1592,6 +1592,14 @@ class C20(RunSpec):
         d = super().make_case(seed, idx, tier)
         if idx % 7 == 3:
             d["obj"]["v"] = 0.0
+        if idx % 10 == 6 and d.get("kind") == "tree" and len(d["levels"]) >= 2:
+            # one problem object for all levels whose outermost wrapper is a StatsGatheringProblem (it keeps a call counter of its own, which
+            # is about the wrapper, not about any one level): the per-level lines of summary() are about the level's demes
+            d["shared"] = True
+            for lv in d["levels"]:
+                lv["stack"] = ["stats"]
+            d["levels"][0]["lsc"] = {"k": "dontstop"}
+            d["per_level_report_with_a_shared_stats_wrapper"] = True
         if d["gsc"]["k"] == "melimit":
             d["gsc"]["n"] = min(d["gsc"]["n"], 6)
         else:
@@ -1617,6 +1625,7 @@ class C20(RunSpec):
 
     def floors(self, tier):
         return [
+            ("C20.per_level_lines_checked_with_one_stats_wrapper_shared_by_two_populated_levels", 10, "per-level report lines checked on trees whose levels share one StatsGatheringProblem"),
             ("C20.two_demes_share_global_best", 1, "tree with >=2 demes sharing the global best"),
             ("C20.displayed_and_not_yet_displayed_child", 1, "tree with a displayed and a not-yet-displayed child"),
             ("C20.best_fitness_exactly_zero", 1, "best fitness exactly 0.0"),
